@@ -62,7 +62,7 @@ def classify (s : OrderSite) : Option SiteClass :=
   | "src/parser/alias.go", "sortAliases", "params" => some .commutes
   | "src/parser/alias.go", "sortAliases", "matchedAliases" => some .deterministicInput
   | "src/parser/generic_symbol_table.go", "newGenericSymbolTable", "genericTypes" => some .commutes
-  | "src/parser/parser.go", "*parser.insertOperatorOverload", "overloads" => some .deterministicInput
+  | "src/parser/parser.go", "*parser.insertOperatorOverloadAt", "overloads" => some .deterministicInput
   | _, _, _ => none
 
 end DDP.Order
